@@ -29,7 +29,7 @@ type Spec struct {
 	TimeoutSec func(tier string) int
 	// Prepare builds the child binary (generated-program properties). When
 	// nil the running executable is its own child.
-	Prepare func(p *Parent) (bin string, err error)
+	Prepare func(p *Parent) (binFor func(batch int) string, err error)
 	// Race marks a race-detector build: GORACE logs are collected and every
 	// report block is a violation.
 	Race bool
@@ -120,13 +120,14 @@ func RunParent(spec *Spec, tier string, seed int64, replayPath string) int {
 	if p.Replay != nil {
 		p.NBatch = p.Replay.NBatch
 	}
-	bin, err := os.Executable()
+	self, err := os.Executable()
 	if err != nil {
 		fmt.Println("executable:", err)
 		return 2
 	}
+	binFor := func(int) string { return self }
 	if spec.Prepare != nil {
-		bin, err = spec.Prepare(p)
+		binFor, err = spec.Prepare(p)
 		if err != nil {
 			// A build failure of generated code against the current tree is
 			// reported by the property itself through PrepareError.
@@ -171,7 +172,7 @@ func RunParent(spec *Spec, tier string, seed int64, replayPath string) int {
 		go func() {
 			defer wg.Done()
 			defer func() { <-sem }()
-			results[b], extra[b], incon[b] = p.runBatch(bin, b, only, timeout)
+			results[b], extra[b], incon[b] = p.runBatch(binFor(b), b, only, timeout)
 		}()
 	}
 	wg.Wait()
@@ -485,6 +486,9 @@ func (p *Parent) finish(start time.Time, m *Merged) int {
 		fmt.Printf("  what: %s\n", what)
 		exit = 1
 	}
+	if len(m.ViolCount) > 0 {
+		fmt.Printf("  violation classes: %v\n", m.ViolCount)
+	}
 	if unlistedCount > int64(len(unlisted)) || len(unlisted) > 8 {
 		fmt.Printf("  (%d violating observations in total)\n", unlistedCount)
 	}
@@ -572,3 +576,7 @@ func sumMap(m map[string]int64) int64 {
 	}
 	return n
 }
+
+// WantBatch reports whether a batch will be run (all of them, or only the
+// recorded one when replaying).
+func (p *Parent) WantBatch(b int) bool { return p.Replay == nil || p.Replay.Batch == b }
